@@ -5,7 +5,7 @@
    CNAME/other-data exclusivity.  Proofs: Proofs/Txn*.v. *)
 From DV Require Import Base.Prelude Model.NameM Model.TxnM.
 From DV Require Import Proofs.NameValid Proofs.TxnName Proofs.TxnStore Proofs.TxnLow Proofs.TxnSim Proofs.TxnThm
-                       Proofs.TxnIrrel Proofs.TxnSpec Proofs.TxnInv Proofs.TxnItems Proofs.TxnAbs Proofs.TxnHeap.
+                       Proofs.TxnIrrel Proofs.TxnSpec Proofs.TxnInv Proofs.TxnItems Proofs.TxnAbs Proofs.TxnHeap Proofs.TxnCount.
 Open Scope Z_scope.
 
 (* Any history of transactions - every operation and argument form, manual commit/rollback or with-block,
@@ -17,6 +17,20 @@ Theorem refines :
   Forall2 (ROut (RP c)) (impl_hist c h z) (spec_hist c h l).
 Proof. exact refines_hist. Qed.
 Print Assumptions refines.
+
+(* The refinement with EVERY call of a transaction inside, the iterate calls included (iterate_names /
+   iterate_rdatasets count the names and rdatasets of the private state): the relation is strengthened with
+   the structural well-formedness of the node map and "owners of the reference store are canonical". *)
+Theorem refines_with_iteration :
+  forall c h z l, wfc c -> Forall spec_valid_it h -> RP2 c z l ->
+  Forall2 (ROut (RP2 c)) (impl_hist c h z) (spec_hist c h l).
+Proof. exact refines_iter. Qed.
+Print Assumptions refines_with_iteration.
+
+Theorem every_wellformed_zone_is_related_to_its_abstraction :
+  forall c m, wfc c -> zwf c m -> RP2 c m (abs c m).
+Proof. exact RP2_abs. Qed.
+Print Assumptions every_wellformed_zone_is_related_to_its_abstraction.
 
 (* The same with the abstraction function: a well-formed node map z (no duplicate key, validated keys, no
    empty node, one rdataset per type) denotes the reference store `abs c z`; for every such zone,
@@ -388,3 +402,15 @@ Example ex_heap_run :
   map snd (heap_hist ex_cfg ex_hist ([], [])) =
   [ ([[ex_a]], [(ex_www, 0%nat)]); ([[ex_a]], [(ex_www, 0%nat)]) ].
 Proof. vm_compute. reflexivity. Qed.
+
+Example ex_related2 : RP2 ex_cfg [] [].
+Proof. apply RP2_empty. Qed.
+
+Example ex_iter_valid :
+  Forall spec_valid_it [mkSpec 0 1 [OAdd [AName ex_www; ARds ex_a]; OIter] None] /\
+  map fst (impl_hist ex_cfg [mkSpec 0 1 [OAdd [AName ex_www; ARds ex_a]; OIter] None] []) = [[Ok RNone; Ok (RPair 1 1)]].
+Proof.
+  split; [|vm_compute; reflexivity]. constructor; [|constructor]. constructor; [|constructor; [exact Logic.I|constructor]].
+  cbn. constructor; [|constructor; [exact Logic.I|constructor]].
+  repeat split; [repeat constructor; cbn; lia|cbn; lia|constructor].
+Qed.
